@@ -33,23 +33,64 @@ def _escalate(chk, scen_name, scen, gen, n, breaks_before, what):
                          f'escalated search over {n} more cases, monitor hits: {len(chk.violations)}')
 
 
+def _drive(model, scen, sel):
+    """one driver process for a batch (runs in a helper thread, overlapping the next batch of cases)"""
+    lines = []
+    for k, (case, res) in enumerate(sel):
+        lines += scen.model_lines(k, case, res)
+    out = core.run_driver(model, lines)
+    verdict = {}
+    for ln in out:
+        w = ln.split(' ', 2)
+        if len(w) >= 2 and w[0] in ('ok', 'REJECT', 'NOFINAL', 'MISMATCH'):
+            verdict[w[1]] = ln
+    slim = []
+    for k, (case, res) in enumerate(sel):
+        slim.append((case, verdict.get(str(k)), res.get('events'), res.get('monitors')))
+    return slim
+
+
+def _book(chk, model, slim):
+    """same bookkeeping as Check.validate"""
+    nval = 0
+    for case, v, events, monitors in slim:
+        if v is None:
+            chk.corr_breaks.append(dict(model=model, case=case, verdict='no answer from the driver', events=events))
+        elif v.startswith('ok'):
+            nval += 1
+        else:
+            chk.corr_breaks.append(dict(model=model, case=case, verdict=v, events=events, monitors=monitors))
+    chk.cov['traces_validated_against_impl'] += nval
+    return nval, len(slim)
+
+
 def _run_batched(chk, scen_name, scen, cases, model, engine, batch, per_case_timeout=120.0, traced=None, visit=None):
     """run -> account -> monitors -> driver validation, batch by batch, so that the bulky per-case material
-    (hex streams, traces) never accumulates; `visit(case, res)` collects the small statistics"""
+    (hex streams, traces) never accumulates; the driver run of a batch overlaps the execution of the next
+    batch; `visit(case, res)` collects the small statistics"""
+    import concurrent.futures as cf
     nval = ntot = 0
-    for i in range(0, len(cases), batch):
-        results = chk.run_cases(scen_name, cases[i:i + batch], sched=False, per_case_timeout=per_case_timeout)
-        chk.account(scen, results, engine)
-        chk.collect_monitors(results, {'C18'}, keyfn)
-        sel = [(c, r) for c, r in results if traced is None or traced(c)]
-        if model and sel:
-            a, b = chk.validate(model, scen, sel)
+    pending = []
+    with cf.ThreadPoolExecutor(3) as tp:
+        for i in range(0, len(cases), batch):
+            results = chk.run_cases(scen_name, cases[i:i + batch], sched=False, per_case_timeout=per_case_timeout)
+            chk.account(scen, results, engine)
+            chk.collect_monitors(results, {'C18'}, keyfn)
+            sel = [(c, r) for c, r in results if traced is None or traced(c)]
+            if model and sel:
+                pending.append(tp.submit(_drive, model, scen, sel))
+            for case, res in results:
+                if visit:
+                    visit(case, res)
+            del results, sel
+            while len(pending) > 2:
+                a, b = _book(chk, model, pending.pop(0).result())
+                nval += a
+                ntot += b
+        for f in pending:
+            a, b = _book(chk, model, f.result())
             nval += a
             ntot += b
-        for case, res in results:
-            if visit:
-                visit(case, res)
-        del results, sel
     return nval, ntot
 
 
@@ -147,9 +188,9 @@ def run(chk):
         sys.path.insert(0, str(core.REPO / 'src'))     # the parent only uses pure helpers of the scenario modules
     chk.audit(PROPS)
     quick = chk.tier == 'quick'
-    _frame_part(chk, 1200 if quick else 25000)
-    _pipe_part(chk, 120 if quick else 2500)
-    _sock_part(chk, 72 if quick else 900, 16 if quick else 200)
+    _frame_part(chk, 1200 if quick else 10000)
+    _pipe_part(chk, 120 if quick else 1200)
+    _sock_part(chk, 72 if quick else 480, 16 if quick else 100)
     chk.cov['rule'] = (
         'frame (E3): random cases (records: id class x encoder x payload class [empty, header look-alike, newline-heavy, '
         'random bytes, nested objects, unicode text] x size incl. 64 KiB boundaries; reader limit 24..65536; clean / cut '
